@@ -39,22 +39,22 @@ Definition is_unsub (c : cmd) : bool := match c with CUnsubscribe _ => true | _ 
 Definition ev_ok_b (o : sid) (ev : event) : bool :=
   match ev with ECmd b c => cmd_loud_for (N.eqb b o) c && Nat.leb (cmd_depth c) max_batch_nest | _ => true end.
 
-(* the longest prefix of plain commands of a BATCH, and the rest *)
-Fixpoint plain_prefix (l : list cmd) : list cmd :=
-  match l with [] => [] | c :: r => if cmd_plain c then c :: plain_prefix r else [] end.
-Fixpoint plain_rest (l : list cmd) : list cmd :=
-  match l with [] => [] | c :: r => if cmd_plain c then plain_rest r else l end.
+(* splitting a BATCH: the longest prefix of tail commands, then the longest prefix of plain commands, and the rest *)
+Fixpoint take_b (f : cmd -> bool) (l : list cmd) : list cmd :=
+  match l with [] => [] | c :: r => if f c then c :: take_b f r else [] end.
+Fixpoint drop_b (f : cmd -> bool) (l : list cmd) : list cmd :=
+  match l with [] => [] | c :: r => if f c then drop_b f r else l end.
 
-Lemma plain_split : forall l, l = plain_prefix l ++ plain_rest l.
-Proof. induction l as [|c l IH]; cbn; [reflexivity|]. destruct (cmd_plain c); cbn; [now rewrite <- IH|reflexivity]. Qed.
+Lemma take_drop_b : forall f l, l = take_b f l ++ drop_b f l.
+Proof. intros f. induction l as [|c l IH]; cbn; [reflexivity|]. destruct (f c); cbn; [now rewrite <- IH|reflexivity]. Qed.
 
-Lemma plain_prefix_plain : forall l, forallb cmd_plain (plain_prefix l) = true.
-Proof. induction l as [|c l IH]; cbn; [reflexivity|]. destruct (cmd_plain c) eqn:E; cbn; [now rewrite E|reflexivity]. Qed.
+Lemma take_b_all : forall f l, forallb f (take_b f l) = true.
+Proof. intros f. induction l as [|c l IH]; cbn; [reflexivity|]. destruct (f c) eqn:E; cbn; [now rewrite E|reflexivity]. Qed.
 
-(* BATCH: plain commands, then tail commands, an unsubscribe among them *)
+(* BATCH: tail commands, then plain commands, then tail commands; an unsubscribe among them *)
 Definition batch_tail_b (c : cmd) : bool :=
   match c with
-  | CBatch l => forallb tail_cmd (plain_rest l) && snd (client_cmd empty_matcher c)
+  | CBatch l => forallb tail_cmd (drop_b cmd_plain (drop_b tail_cmd l)) && snd (client_cmd empty_matcher c)
   | _ => false
   end.
 
@@ -82,8 +82,10 @@ Proof.
   - right. left. destruct c; try discriminate. eauto.
   - right. right. destruct c as [| | | | | | |l]; try discriminate. cbn [batch_tail_b] in Hb.
     apply andb_true_iff in Hb as [Hb1 Hb2].
-    exists (plain_prefix l), (plain_rest l). split; [f_equal; apply plain_split|].
-    split; [exact Hb2|]. pose proof (plain_prefix_plain l) as Hpp.
+    exists (take_b tail_cmd l), (take_b cmd_plain (drop_b tail_cmd l)), (drop_b cmd_plain (drop_b tail_cmd l)).
+    split; [f_equal; rewrite <- take_drop_b; apply take_drop_b|].
+    split; [exact Hb2|]. split; [apply take_b_all|].
+    pose proof (take_b_all cmd_plain (drop_b tail_cmd l)) as Hpp.
     split; [|split; [exact Hb1|]].
     + rewrite forallb_forall in *. intros x Hx. apply nounsub_of_plain. now apply Hpp.
     + intros ss _. apply covered_of_plain. exact Hpp.
